@@ -35,8 +35,8 @@ class Run:
         shutil.rmtree(os.path.join(common.REPLAYS, prop), ignore_errors=True)
 
     # ---- model checking --------------------------------------------------------------
-    def model(self, module, cfg, workers=None, simulate=None, timeout=3600, xmx="8g", expect_violation=False):
-        r = common.run_tlc(module, cfg, workers=workers or common.NCPU, timeout=timeout, xmx=xmx, simulate=simulate)
+    def model(self, module, cfg, workers=None, simulate=None, timeout=3600, xmx="8g", expect_violation=False, env=None):
+        r = common.run_tlc(module, cfg, workers=workers or common.NCPU, timeout=timeout, xmx=xmx, simulate=simulate, env=env)
         self.model_runs.append({"module": module, "cfg": cfg, "generated": r["states"], "distinct": r["distinct"],
                                 "wall_s": round(r["wall"], 1)})
         self.states += r["distinct"]
